@@ -370,7 +370,7 @@ theorem Preserves.lexString : Preserves src lexString := by
   have := @Preserves.stringLoop src
   unfold Lexer.lexString; pres
 
-theorem Preserves.lexNormal (c : Char) : Preserves src (lexNormal c) := by
+theorem Preserves.lexOther (s : St) (c : Char) : Preserves src (lexOther s c) := by
   have := @Preserves.lexWhitespace src
   have := @Preserves.lexChoices src
   have := @Preserves.lexComment src
@@ -382,6 +382,11 @@ theorem Preserves.lexNormal (c : Char) : Preserves src (lexNormal c) := by
   have := @Preserves.lexEol src
   have := @Preserves.lexString src
   have := @Preserves.lexIdentifier src
+  unfold Lexer.lexOther; pres
+
+theorem Preserves.lexNormal (c : Char) : Preserves src (lexNormal c) := by
+  have := @Preserves.lexWhitespace src
+  have := @Preserves.lexOther src
   unfold Lexer.lexNormal; pres
 
 theorem Preserves.lexInterpolation (t : Tok) (c : Char) (ht : Spans src t) :
